@@ -8,7 +8,7 @@ EDGES = ["MC_cmd_quick.cfg", "MC_err_c3.cfg", "MC_pause_2l.cfg"]
 THOROUGH = ["MC_cmd_2l.cfg", "MC_cmd_w2.cfg", "MC_cmd_w2b.cfg", "MC_cmd_fault.cfg", "MC_cmd_w2l2e2.cfg"]
 NEGS = {"NEG_UnlinkOnDeregister.cfg": ["C05_UdsReachable"], "NEG_BackoffNeverReregisters.cfg": ["C03_NoLostWake"],
         "NEG_ConnErrIsFatal.cfg": ["C05_ConnErrNoDelay"], "NEG_PauseKeepsRegistered.cfg": ["Steps"],
-        "NEG_ResumeClearsBackoff.cfg": ["Steps"]}
+        "NEG_ResumeClearsBackoff.cfg": ["Steps"], "NEG_DropPausePair.cfg": ["StepCmdEffect"]}
 
 
 def nontrivial(s, run):
